@@ -144,3 +144,33 @@ Theorem lf_split_unguarded_refuted :
 Proof.
   exists [114;116;61]. split; [vm_compute; reflexivity|]. eexists. vm_compute. reflexivity.
 Qed.
+
+(* ------------------------------------------------------------------ open findings (handler) *)
+
+(* F20c: the GET handler matches against the percent-escaped query text.  rt="a#b" and the
+   request option Uri-Query "rt=a#b": the filter relation holds for the resource, but the
+   handler's body is empty ('#' reaches the printer as %23). *)
+Theorem lf_handle_get_escaped_refuted :
+  exists rs q r, lf_table_ok rs = true /\ rs = [r] /\ lf_filter_spec q r = true /\
+                 lf_handle_get rs [q] = Lf205 [].
+Proof.
+  exists [lf_add_attr (lf_res_init [97] false) [114;116] (Some [34;97;35;98;34])].
+  exists [114;116;61;97;35;98]. eexists.
+  split; [vm_compute; reflexivity|]. split; [reflexivity|].
+  split; vm_compute; reflexivity.
+Qed.
+
+(* F20d: without COAP_BLOCK_USE_LIBCOAP the body is cut to the room in the PDU and sent as a
+   complete response: 12 resources with a 100-byte rt value, room 1143 *)
+Definition lf_ex_big : list lf_res :=
+  map (fun i => lf_add_attr (lf_res_init [97 + Z.of_nat i] false) [114;116] (Some (repeat 120 100%nat)))
+      (seq 0 12).
+
+Theorem lf_handle_get_nolib_refuted :
+  exists rs room, lf_table_ok rs = true /\
+    lf_handle_get rs [] = Lf205 (lf_listing (lf_selected None rs)) /\
+    exists b, lf_handle_get_nolib rs [] room = Lf205 b /\ len b < len (lf_listing (lf_selected None rs)).
+Proof.
+  exists lf_ex_big, 1143. split; [vm_compute; reflexivity|]. split; [vm_compute; reflexivity|].
+  eexists. split; [vm_compute; reflexivity|]. vm_compute. reflexivity.
+Qed.
